@@ -9,7 +9,8 @@ Lines (tab separated), written by `harness/c15_*_test.go`:
   hooks.env.single    scenario blocker reach returned plain
   hooks.env.single    scenario blocker reach returned sweep cap counter batch offsets
   hooks.env.single    scenario blocker reach returned uloop n i kind wrote atomic remaining
-returned ∈ ok | panic; parents: csv of unit numbers (0 = top level) or `-`; commits: string of 0/1 per unit or `-`.
+returned ∈ ok | panic;   hooks.post.single   scenario blocker reach ok vaultStepsWrapped halfAppliedVaults borrowStepsWrapped halfAppliedBorrows itemsV itemsB topUnits [detail]
+parents: csv of unit numbers (0 = top level) or `-`; commits: string of 0/1 per unit or `-`.
 
 DIFF = the model's prediction differs from the real blocker; MON = the property is false on the real behaviour:
 `no_panic` (a panic escaped a real Begin/EndBlocker in a reachable state), `unit_atomic` (writes of a failed step are
@@ -55,7 +56,8 @@ def handle (st : St) (seq : String) (f : List String) : St × List String :=
         monIf seq (rest.getD 3 "1" = "1" || rest.getD 6 "1" = "1") "unit_atomic" ++
         monIf seq (rest.getD 8 "1" = "1") "no_panic")
   | ["hooks.begin", scen, blocker, _n, _parents, _owns, _commits, returned] =>
-    ({ scen := scen, blocker := blocker }, monIf seq (returned != "ok") "no_panic")
+    -- a baseline panic is reported by the `hooks.env.single` line the harness writes next (it carries the model's inputs)
+    ({ scen := scen, blocker := blocker }, if returned = "ok" || returned = "panic" then [] else [s!"BAD\t{seq}\tbegin line"])
   | "hooks.fault" :: unit :: k :: returned :: stateEq :: later :: pk :: ck :: p0 :: c0 :: rest =>
     match parseNat? unit, parseCsv pk, parseBits ck, parseCsv p0, parseBits c0 with
     | some u, some pk, some ck, some p0, some c0 =>
@@ -100,6 +102,18 @@ def handle (st : St) (seq : String) (f : List String) : St × List String :=
       (st, d ++ monIf seq (returned != "ok" && reach = "1") "no_panic" ++ monIf seq (atomic = "0" && reach = "1") "unit_atomic" ++
         monIf seq (remaining = "0" && reach = "1") "remaining_run")
     | _, _ => (st, [s!"BAD\t{seq}\tuloop line"])
+  | "hooks.post.single" :: scen :: blocker :: reach :: _ret :: vaultW :: halfV :: borrowW :: halfB :: rest =>
+    -- per-item oracle of the liquidation sweeps: a step that runs as a wrapped unit cannot be half-applied
+    match parseNat? halfV, parseNat? halfB with
+    | some hv, some hb =>
+      -- the model's reading of the source (Props/C15 `units_of_work_wrapped`): vault steps of both generations and
+      -- first-generation borrow steps are wrapped units, hence atomic; second-generation borrow steps are atomic
+      -- only where the run showed them as units (D6: on the pinned tree they run unwrapped and may leak)
+      let gen2 := blocker.startsWith "liquidationsV2"
+      let d := (if hv > 0 then [s!"DIFF\t{seq}\t{scen} {blocker}: model=vault steps atomic (wrapped={vaultW}) impl={hv} half-applied {rest}"] else []) ++
+               (if hb > 0 && (!gen2 || borrowW = "1") then [s!"DIFF\t{seq}\t{scen} {blocker}: model=borrow steps atomic impl={hb} half-applied {rest}"] else [])
+      (st, d ++ monIf seq (reach = "1" && hv + hb > 0) "unit_atomic")
+    | _, _ => (st, [s!"BAD\t{seq}\tpost line"])
   | _ => (st, [s!"BAD\t{seq}\tunknown hooks line"])
 
 end Comdex.Drv.Hooks
